@@ -50,6 +50,8 @@ def setup(tier):
     codes = list(dict.fromkeys(list(reps.values()) + CUSTOMARY + ['HJ', 'PV', 'LJ', 'TJ', 'SP', 'DT', 'HT', 'JT', 'WT', 'DEC', 'HEP', 'PEN',
                                                                  '100', '200', '400', '800', '1500', '3000', '5000', '10000', '110H', '400H', '3000SC', '4x100', '4x400',
                                                                  '24HR', 'T30', 'H1', 'L2', 'BAL']))
+    # an accepted code may still carry its line terminator ('$' matches before a final line feed)
+    codes += [c + '\n' for c in ('HJ', 'DT1.5K', '100', '800', 'MAR', '5K', '4x100', 'DEC', 'HEP', '3000SC') if P['PAT_EVENT_CODE'].match(c + '\n')]
     _G.update(P=P, codes=codes, U=U)
     return _G
 
